@@ -41,7 +41,7 @@ claimed = {
          "key/value lengths ≤1–2 bytes, ≤2 entries for the round trip", "§0 C28"),
  "C29": ("ResponseHeader and RequestHeader: every sequence of 4 (quick) / 5 (thorough) Add/Set/Del operations over mixed-case ordinary names with symbolic values vs an ordered-multimap model (PeekAll order, Peek, Len)",
          "ordinary names only; special names, normalisation off, CopyTo, write→read-back outside", "§0 C29"),
- "C30": ("ParseUint accepts exactly the digit strings that fit (all digit strings ≤20/≤24 digits, all byte strings ≤4/≤6), exact value; parseContentLength agrees; AppendUint∘ParseUint for n < 2^14/2^20; hex write/read round trip for every n < 2^60 and rejection of 16+ hex digits",
+ "C30": ("ParseUint accepts exactly the digit strings that fit (all digit strings ≤20/≤24 digits, all byte strings ≤4/≤6), exact value; parseContentLength agrees; AppendUint∘ParseUint for n < 2^14/2^16; hex write/read round trip for every n < 2^60 and rejection of 16+ hex digits",
          "64-bit int only; AppendUint inverse only below 2^appendBits", "§0 C30"),
  "C31": ("IPv4 clauses: ParseIPv4 accepts exactly four dot-separated non-empty decimal fields ≤255 for every byte string of length ≤8/≤10; AppendIPv4→ParseIPv4 round trip with each octet symbolic in turn",
          "HTTP-date and IPv6 clauses outside (time.Parse / netip not interpreted)", "§0 C31"),
